@@ -105,10 +105,14 @@ func c06Body(c *vk.Ctx, cs c06Case) {
 	}
 	outcomes = append(outcomes, true)
 	tOut0 := time.Now()
+	// the instants at which the harness triggered something that can make the node transmit: the age of a
+	// transmission is computed by the node after its trigger, the harness sees it (x.At) some time later
+	triggers := []time.Time{tIn0, tOut0}
 	p := s.addPeerScripted("dest", id, outcomes)
 	_ = p
 	for i := 0; i < cs.Fails; i++ {
 		s.logf("retry tick")
+		triggers = append(triggers, time.Now())
 		s.tickPending()
 	}
 	tOut1 := time.Now()
@@ -160,13 +164,13 @@ func c06Body(c *vk.Ctx, cs c06Case) {
 		}
 		if (expireByTime || expireByAge) && !deleteByBlock && !hopRefuse {
 			// transmissions while the bundle was still alive (to another peer, right after reception) are fine
+			// Everything the reception itself triggered was recorded before receiveRaw returned (tIn1: the
+			// node's handler waits for its transmissions). Later transmissions were decided after tOut0,
+			// when the lifetime had run out by more than 50 ms (that is what expireBy* mean). The time
+			// stamp of a transmission itself is not used: on a busy machine it is taken late.
 			var late []vfSend
-			rem := int64(life) - int64(spec.TsAgoMs)
-			if spec.TsZero {
-				rem = int64(life) - int64(ageIn)
-			}
 			for _, x := range attempts {
-				if x.At.Sub(tIn0).Milliseconds() > rem+50 {
+				if x.At.After(tIn1) {
 					late = append(late, x)
 				}
 			}
@@ -264,7 +268,16 @@ func c06Body(c *vk.Ctx, cs c06Case) {
 					s.failf("c06.block-changed", "%s: bundle age block is undecodable", what)
 				}
 				// time at this node between reception and this transmission, bracketed by harness clock readings
-				lo := x.At.Sub(tIn1).Milliseconds() - 2
+				// lower bound: from the end of the reception to the trigger that preceded this transmission
+				// (not to x.At: on a busy machine the node computes the age well before the scripted
+				// convergence layer gets to run and takes its time stamp)
+				trig := tIn0
+				for _, tt := range triggers {
+					if !tt.After(x.At) {
+						trig = tt
+					}
+				}
+				lo := trig.Sub(tIn1).Milliseconds() - 2
 				if lo < 0 {
 					lo = 0
 				}
